@@ -110,6 +110,7 @@ class DeckGen:
         self.classes = {}      # (mat, class id) -> number
         self.features = set()
         self.done = []         # (universe, depth) of finished universes
+        self.probes = []       # points inside the small special regions
         self.big = self.new_surface('so', [500.0])
 
     # -- helpers ------------------------------------------------------------
@@ -219,39 +220,86 @@ class DeckGen:
                 base = cell
         return univ
 
-    def like_universe(self, base, depth):
-        '''A universe holding one LIKE n BUT copy of the (infinite) cell
-        `base`, with another material and/or density.'''
+    def like_override(self, mat_now, allow_void=True, force=False):
+        '''MAT=/RHO= entries of a LIKE n BUT card whose model cell has material
+        `mat_now`: (but entries, class key or 'keep', material afterwards).'''
         rng = self.rng
-        univ = self.next_univ
-        self.next_univ += 1
-        cid = self.next_cell
-        self.next_cell += 1
-        but = {'u': univ}
         mode = rng.random()
+        if not force and mode < 0.3:
+            return {}, 'keep', mat_now           # nothing overridden
         mat = self.material()
         while mat[0] == 0:
             mat = self.material()
-        if base['mat'] != 0 and rng.random() < 0.12:
-            but['mat'], cls = 0, None       # a void copy
+        if allow_void and mat_now != 0 and rng.random() < 0.12:
             self.features.add('like-but-void')
-        elif base['mat'] == 0 or mode < 0.5:
-            but['mat'], but['rho'], cls = mat[0], mat[1], mat[2]
+            return {'mat': 0}, None, 0           # a void copy
+        if mat_now == 0 or mode < 0.65:
             self.features.add('like-but-mat-rho')
-        else:
-            # density only: keep the base material, take a density of its palette
-            pal = self.palette[base['mat']]
-            idx = rng.randrange(len(pal))
-            text, pad, marker = gen_spellings(rng, pal[idx], 1,
-                                              wild=self.wild)[0]
-            but['rho'] = text
-            cls = (base['mat'], idx, pad, marker)
-            self.features.add('like-but-rho')
-        self.cells.append({'id': cid, 'like': base['id'], 'but': but,
+            return {'mat': mat[0], 'rho': mat[1]}, mat[2], mat[0]
+        # density only: keep the material, take a density of its palette
+        pal = self.palette[mat_now]
+        idx = rng.randrange(len(pal))
+        text, pad, marker = gen_spellings(rng, pal[idx], 1, wild=self.wild)[0]
+        self.features.add('like-but-rho')
+        return {'rho': text}, (mat_now, idx, pad, marker), mat_now
+
+    def like_cell(self, model, but, cls):
+        cid = self.next_cell
+        self.next_cell += 1
+        self.cells.append({'id': cid, 'like': model['id'], 'but': but,
                            'cls': cls, 'mat': None, 'rho': None, 'expr': None,
-                           'imp': None, 'u': univ, 'lat': None, 'fill': None,
-                           'trcl': None})
-        return univ
+                           'imp': None, 'u': but.get('u', model['u']),
+                           'lat': None, 'fill': None, 'trcl': None})
+        return self.cells[-1]
+
+    def like_universe(self, base, depth):
+        '''A chain of 1-3 LIKE n BUT copies of the (infinite) cell `base`, each
+        in a universe of its own and each the model of the next one; MAT=/RHO=
+        overrides may sit on any hop, so that the last copy depends on what
+        the intermediate cards say. Returns the universes of the chain.'''
+        rng = self.rng
+        hops = rng.choice([1, 2, 2, 3])
+        model, cls_now, mat_now = base, base.get('cls'), base['mat']
+        univs = []
+        for hop in range(hops):
+            univ = self.next_univ
+            self.next_univ += 1
+            # the first hop always overrides; the last one often does not
+            but, cls, mat_now = self.like_override(mat_now, force=hop == 0)
+            if cls == 'keep':
+                cls = cls_now
+            cls_now = cls
+            but['u'] = univ
+            model = self.like_cell(model, but, cls)
+            univs.append(univ)
+        if hops > 1:
+            self.features.add(f'like-chain-{hops}')
+        return univs
+
+    def like_top_level(self, carve):
+        '''A chain of LIKE n BUT cells at level 0: a small ball with a material
+        and 1-2 copies moved by TRCL, the second being LIKE the first copy.'''
+        rng = self.rng
+        z = -3.5
+        ball = self.new_surface('s', [-2.0, 0.0, z, 0.5])
+        carve(ball)
+        mat = self.material()
+        while mat[0] == 0:
+            mat = self.material()
+        model = self.add_cell(S(-ball), 0, mat=mat)
+        cls_now, mat_now = mat[2], mat[0]
+        hops = rng.choice([1, 2, 2])
+        for hop in range(hops):
+            shift = 2.0 * (hop + 1)
+            carve(self.new_surface('s', [-2.0 + shift, 0.0, z, 0.5]))
+            but, cls, mat_now = self.like_override(mat_now, force=hop == 0)
+            if cls == 'keep':
+                cls = cls_now
+            cls_now = cls
+            but['trcl'] = deckmod.make_tr([shift, 0.0, 0.0])
+            model = self.like_cell(model, but, cls)
+            model['u'] = 0
+        self.features.add(f'like-top-level-{hops}')
 
     def lattice_universe(self, univ, depth):
         '''A rectangular lattice (pitch 4, element centred on the origin)
@@ -295,33 +343,48 @@ class DeckGen:
         n_leaves = rng.choice([2, 3, 3, 4])
         sids = [self.random_surface() for _ in range(n_leaves - 1)]
         leaves = deckmod.bsp(rng, sids, n_leaves)
-        like_bases = []
         for lits in leaves:
             fill = None
             if rng.random() < 0.55:
                 fill = {'u': self.universe(1), 'tr': self.fill_tr()}
                 self.features.add('nesting-depth-1')
             self.add_cell(deckmod.leaf_expr([-outer] + lits), 0, fill=fill)
-        # LIKE n BUT: copy an infinite one-cell universe into a new universe
-        # and use it as a filler of an extra level-0 region
+        partition = [c for c in self.cells if c['u'] == 0]
+
+        def carve(sid):
+            cx, cy, cz, rad = self.surfaces[sid - 1]['params']
+            for _ in range(4):
+                self.probes.append([cx + rng.uniform(-0.5, 0.5) * rad,
+                                    cy + rng.uniform(-0.5, 0.5) * rad,
+                                    cz + rng.uniform(-0.5, 0.5) * rad])
+            for cell in partition:
+                e = cell['expr']
+                cell['expr'] = (e + (S(sid),)) if e[0] == '*' \
+                    else ('*', e, S(sid))
+        # LIKE n BUT chains: copies of an infinite one-cell universe, each in a
+        # universe of its own; the universe of the LAST copy (and sometimes of
+        # an intermediate one) fills an extra level-0 region
         singles = [c for c in self.cells
                    if c['u'] != 0 and c.get('like') is None
                    and not c['lat'] and c['fill'] is None
                    and c['expr'] == S(-self.big)]
         if singles and rng.random() < 0.8:
             base = rng.choice(singles)
-            univ = self.like_universe(base, 1)
-            # carve a sphere out of the level-0 cells for it
+            univs = self.like_universe(base, 1)
             ball = self.new_surface('s', [rng.choice([-2.0, 0.0, 2.0]),
                                           rng.choice([-2.0, 0.5, 2.0]),
                                           rng.choice([-1.0, 1.5]), 1.25])
-            for cell in self.cells:
-                if cell['u'] == 0 and cell.get('like') is None:
-                    e = cell['expr']
-                    cell['expr'] = (e + (S(ball),)) if e[0] == '*' \
-                        else ('*', e, S(ball))
-            self.add_cell(S(-ball), 0, fill={'u': univ, 'tr': None},
+            carve(ball)
+            self.add_cell(S(-ball), 0, fill={'u': univs[-1], 'tr': None},
                           mat=(0, None, None))
+            if len(univs) > 1 and rng.random() < 0.5:
+                ball2 = self.new_surface('s', [0.0, 0.0, 4.2, 0.6])
+                carve(ball2)
+                self.add_cell(S(-ball2), 0,
+                              fill={'u': rng.choice(univs[:-1]), 'tr': None},
+                              mat=(0, None, None))
+        if rng.random() < 0.5:
+            self.like_top_level(carve)
         self.add_cell(S(outer), 0, mat=(0, None, None), imp=0)
         mats = sorted({c['mat'] for c in self.cells if c.get('mat')}
                       | {c['but']['mat'] for c in self.cells
@@ -329,7 +392,7 @@ class DeckGen:
         return {'title': 'C09 generated deck', 'cells': self.cells,
                 'surfaces': self.surfaces, 'transforms': self.transforms,
                 'materials': {m: MATERIAL_CARDS[m] for m in mats if m},
-                'data': [], 'palette': self.palette,
+                'data': [], 'palette': self.palette, 'probes': self.probes,
                 'features': sorted(self.features)}
 
 
